@@ -4,7 +4,7 @@
 cd "$(dirname "$0")/../seeded"
 for d in ${@:-$(ls -d */ | tr -d /)}; do
   [ -f "$d/meta.json" ] || continue
-  out=$(../tools/verify_seeded.py "$d" --check 2>&1)
+  out=$(../tools/verify_seeded.py "$d" ${VERIFY_MODE:---check} 2>&1)
   echo "$out" | python3 -c "
 import sys, json
 txt = sys.stdin.read()
